@@ -162,6 +162,7 @@ POIS = ((-7, 77), (1234567, 5))
 def _dense_case(sh, cI, im, nthreads, case):
     want, n_want, longest = dense_oracle(im)
     wantc = O.canon_labels(want)
+    im_in = im.copy()
     for nt in nthreads:
         cI.cimaged11_omp_set_num_threads(nt)
         outs = []
@@ -170,6 +171,9 @@ def _dense_case(sh, cI, im, nthreads, case):
             wrk = np.full(im.shape, pw, np.int8)
             n = cI.localmaxlabel(im, lab, wrk)
             outs.append((n, lab))
+        if not np.array_equal(im, im_in):
+            sh.violation("localmaxlabel:image-modified", dict(case, nthreads=nt), {})
+            im[...] = im_in
         if outs[0][0] != outs[1][0] or not np.array_equal(outs[0][1], outs[1][1]):
             sh.violation("localmaxlabel:poison-dependent", dict(case, nthreads=nt), {"a": outs[0][1], "b": outs[1][1]})
             break
